@@ -27,4 +27,11 @@ def attachedB : Option Char → List Block → Text → Bool
     (b.1.isEmpty || b.2 != ' ' || (match prev with | some c => c != ' ' | none => false)) &&
       attachedB (some b.2) r tl
 
+/-- executable form of `NoTouch` (no escape sequence touches a hyphen) -/
+def noTouchB : Ansi → Bool → Text → Bool
+  | _, _, [] => true
+  | s, pin, c :: cs =>
+    (c != '-' || (s == .normal && !pin && cs.head? != some (Char.ofNat 27))) &&
+      noTouchB (s.step c).1 (!(s.step c).2) cs
+
 end TW
